@@ -586,3 +586,158 @@ def collect_embedding(a, n, b):
     use(collect_cons, a[0], a[1:])
     ih(collect_embedding, a[1:], n, b)
     return ts_calls_seq(a + [n] + b) == ts_calls_seq(a) + ts_calls(n) + ts_calls_seq(b)
+
+
+# ================================================================== (iv) BOUNDED native check: documented patterns x embeddings
+# Labelled `bounded`: a finite differential test at the property's own observation point (violations of the real rules
+# run by the real Orchestrator), NOT a proof. It instantiates C19's quantifier "wherever the example is placed: at module
+# level or inside classes, functions and other blocks, ..., any number of times in one file" for one documented-style
+# violating example per Python pattern linter and a fixed family of embeddings. Oracle = the property itself: the
+# findings of the example's rule in the embedded file are exactly the module-level findings, shifted to each copy.
+import json as _json  # noqa: E402
+import subprocess as _subprocess  # noqa: E402
+import sys as _sys  # noqa: E402
+import tempfile as _tempfile  # noqa: E402
+
+EMBED_EXAMPLES = {
+    "method-property": "class User:\n    def __init__(self, name):\n        self._name = name\n\n    def get_name(self):\n"
+                       "        return self._name\n",
+    "print-statement": "def report(value):\n    print(value)\n",
+    "stateless-class": "class TokenHasher:\n    def hash_token(self, token):\n        return hash(token)\n\n"
+                       "    def hash_all(self, tokens):\n        return [hash(t) for t in tokens]\n",
+    "string-concat-loop": "result = \"\"\nfor item in items:\n    result += str(item)\n",
+    "regex-in-loop": "for line in lines:\n    if re.match(r\"\\d+\", line):\n        count = 1\n",
+    "lbyl-dict-key": "if key in config:\n    value = config[key]\n",
+    "collection-pipeline": "for item in items:\n    if not item.valid:\n        continue\n    handle(item)\n",
+    "cqs": "def process(data):\n    result = fetch(data)\n    save(result)\n    return result\n",
+    "conditional-verbose": "if verbose:\n    logger.debug(\"x\")\n",
+}
+PARAMS = "items, lines, config, key, verbose, logger"
+EMBED_CONTEXTS = {   # name -> (header lines, indent of the embedded copy, footer lines)
+    "function": ([f"def outer_fn({PARAMS}):"], 4, []),
+    "method": (["class Host:", f"    def run(self, {PARAMS}):"], 8, []),
+    "if-block": (["if FLAG:"], 4, []),
+    "for-body": (["for _outer in range(3):"], 4, []),
+    "while-body": (["while FLAG:"], 4, []),
+    "try-body": (["try:"], 4, ["except Exception:", "    raise"]),
+    "with-body": (["with open(PATH) as fh:"], 4, []),
+    "function-for-if": ([f"def outer_fn({PARAMS}):", "    for _outer in range(3):", "        if FLAG:"], 12, []),
+}
+PREAMBLE = ["import re", "", "FLAG = True", "PATH = \"p\"", ""]
+
+_EMBED_DRIVER = r"""
+import json, sys
+from pathlib import Path
+sys.path.insert(0, sys.argv[1])
+from src.orchestrator.core import Orchestrator
+root = Path(sys.argv[2])
+o = Orchestrator(project_root=root)
+out = {}
+for p in sorted(root.glob("*.py")):
+    out[p.name] = sorted({(v.rule_id, v.line) for v in o.lint_file(p)})
+print("RESULT" + json.dumps(out))
+"""
+
+
+def _indent(text, n):
+    return [(" " * n + ln) if ln else "" for ln in text.rstrip("\n").split("\n")]
+
+
+def _embedding_files():
+    """name -> (source lines, example key, start lines of the copies)."""
+    files = {}
+    for ek, ex in EMBED_EXAMPLES.items():
+        base = PREAMBLE + _indent(ex, 0)
+        files[f"{ek}__module.py"] = (base, ek, [len(PREAMBLE) + 1])
+        for ck, (head, ind, foot) in EMBED_CONTEXTS.items():
+            lines = PREAMBLE + head
+            start = len(lines) + 1
+            lines = lines + _indent(ex, ind) + foot
+            files[f"{ek}__{ck}.py"] = (lines, ek, [start])
+        # multiplicity: the same example (same names, same indentation) twice in sibling functions, once at module
+        # level and once in a class method -- four occurrences in one file
+        lines, starts = list(PREAMBLE), []
+        for head, ind in (([f"def first_fn({PARAMS}):"], 4), ([f"def second_fn({PARAMS}):"], 4), ([], 0),
+                          (["class Host:", f"    def run(self, {PARAMS}):"], 8)):
+            lines += head
+            starts.append(len(lines) + 1)
+            lines += _indent(ex, ind) + ["", ""]
+        files[f"{ek}__four-occurrences.py"] = (lines, ek, starts)
+        # ... and the same four occurrences "with its identifiers renamed" (a distinct suffix per copy)
+        lines, starts = list(PREAMBLE), []
+        for k, (head, ind) in enumerate((([f"def first_fn({PARAMS}):"], 4), ([f"def second_fn({PARAMS}):"], 4), ([], 0),
+                                         (["class Host:", f"    def run(self, {PARAMS}):"], 8))):
+            lines += head
+            starts.append(len(lines) + 1)
+            lines += _indent(_re_rename(ex, k), ind) + ["", ""]
+        files[f"{ek}__four-occurrences-renamed.py"] = (lines, ek, starts)
+    return files
+
+
+RENAMABLE = ("result", "item", "line", "value", "count", "User", "TokenHasher", "process", "report", "token", "tokens", "data",
+             "name", "_name", "get_name")
+
+
+def _re_rename(text, k):
+    """The example with its own identifiers consistently renamed (suffix per copy); parameters of the wrappers, builtins,
+    attribute names of foreign objects (item.valid, logger.debug) and the get_ prefix are left alone."""
+    import re as _r
+    if k == 0:
+        return text
+    def sub(m):
+        w = m.group(0)
+        if w == "get_name":
+            return f"get_name{k}"
+        return f"{w}{k}" if w in RENAMABLE else w
+    return _r.sub(r"(?<![\w.])[A-Za-z_][A-Za-z_0-9]*", sub, text)
+
+
+@custom("c19-embedding-bounded", props=["C19"])
+def c19_embedding_bounded(ctx):
+    files = _embedding_files()
+    tmp = _tempfile.mkdtemp(prefix="c19emb_")
+    for name, (lines, _ek, _starts) in files.items():
+        with open(os.path.join(tmp, name), "w", encoding="utf-8") as fh:
+            fh.write("\n".join(lines) + "\n")
+    p = _subprocess.run([_sys.executable, "-c", _EMBED_DRIVER, ctx["repo"], tmp], capture_output=True, text=True, timeout=600,
+                        cwd=tmp)
+    import shutil
+    shutil.rmtree(tmp, ignore_errors=True)
+    line = [ln for ln in p.stdout.splitlines() if ln.startswith("RESULT")]
+
+    def ob(name, verdict, note):
+        return {"name": f"c19-embedding-bounded/{name}", "kind": "bounded", "verdict": verdict, "solver": "native", "ms": 0.0,
+                "carries": True, "lineno": 0, "note": note, "tool": "real Orchestrator on generated files",
+                "witness_confirmed": verdict == "refuted",   # a refutation here IS a native observation
+                "budget": f"{len(EMBED_EXAMPLES)} examples x {len(EMBED_CONTEXTS) + 2} embeddings", "cases": len(files)}
+    if not line:
+        return [ob("driver", "unknown", "driver failed: " + (p.stderr or p.stdout)[-400:])]
+    res = {k: [tuple(x) for x in v] for k, v in _json.loads(line[0][len("RESULT"):]).items()}
+    obs = []
+    for ek in EMBED_EXAMPLES:
+        base_name = f"{ek}__module.py"
+        base_start = files[base_name][2][0]
+        base = res.get(base_name, [])
+        # the example's own rule(s): what the module-level copy reports inside the example's lines (file-level rules,
+        # which report at line 1, are not part of the example)
+        nlines = len(EMBED_EXAMPLES[ek].rstrip("\n").split("\n"))
+        offsets = sorted({(r, ln - base_start) for r, ln in base if base_start <= ln < base_start + nlines})
+        rules = {r for r, _ in offsets}
+        if not offsets:
+            obs.append(ob(f"{ek}/module", "refuted", "the documented-style violating example is not reported at module level"))
+            continue
+        obs.append(ob(f"{ek}/module", "discharged", f"reported at module level: {offsets}"))
+        for name, (lines, k2, starts) in sorted(files.items()):
+            if k2 != ek or name == base_name:
+                continue
+            expected = sorted({(r, s + off) for s in starts for r, off in offsets})
+            actual = sorted((r, ln) for r, ln in res.get(name, []) if r in rules)
+            emb = name[len(ek) + 2:-3]
+            obs.append(ob(f"{ek}/{emb}", "discharged" if actual == expected else "refuted",
+                          "findings of the example's rule = module-level findings shifted to each copy" if actual == expected
+                          else f"expected {expected}, the rule reports {actual}"))
+            # weaker half, stated separately: every occurrence IS reported at its own line (nothing is missed)
+            missed = [e for e in expected if e not in actual]
+            obs.append(ob(f"{ek}/{emb}:every-occurrence-is-reported", "discharged" if not missed else "refuted",
+                          "each copy is reported at its line" if not missed else f"not reported: {missed}"))
+    return obs
